@@ -306,11 +306,13 @@ func (s *sessions) add(session *Session) {
 	s.sessionMu.Lock()
 	if s.data != nil {
 		s.data[session] = struct{}{}
-	} else {
-		session.logger.warnf("listener is closed, session %s will not be add", session.name)
-		session.Close()
+		s.sessionMu.Unlock()
+		return
 	}
 	s.sessionMu.Unlock()
+	// Close() reports the shutdown to the listener, which locks sessionMu again: it must not be called under the lock.
+	session.logger.warnf("listener is closed, session %s will not be add", session.name)
+	session.Close()
 }
 
 func (s *sessions) removeShutdownSession() {
